@@ -299,6 +299,11 @@ def run():
     extra = [dict(target="support", tkw=dict(f=0.5), N=48, n_total=144, clustering=True, kernel="tpcn", mode="blobs", ess_ratio=3.0),
              dict(target="bimodal", tkw=dict(sep=5.0, p=0.5), N=96, n_total=288, clustering=True, kernel="rwm", mode="vec", split_threshold=0.5, cluster_every=2),
              dict(target="gauss4", N=48, n_total=144, clustering=True, kernel="tpcn", mode="scalar", volume_variation=1.0, n_max_clusters=3, resample="syst")]
+    # likelihood evaluated through worker processes / threads (the parent's stream must not notice)
+    extra += [dict(target="gauss2", N=32, n_total=96, clustering=False, kernel="tpcn", mode="scalar", pool=2),
+              dict(target="bimodal", N=32, n_total=96, clustering=True, kernel="rwm", mode="blobs", pool=3, resample="syst"),
+              dict(target="gauss2", N=32, n_total=96, clustering=True, kernel="tpcn", mode="scalar", pool="tpe"),
+              dict(target="expface", N=32, n_total=96, clustering=False, kernel="rwm", mode="scalar", pool=1)]
     for j, cfg in enumerate(extra):
         ra = ck.subseed("rsx", j) % 100000
         tasks.append(("tvf.checks.c09:repro_case", dict(cfg=dict(cfg, seed=0), rs_a=ra, rs_b=ra + 1), None))
@@ -335,6 +340,8 @@ def run():
         bad, nit = val
         ck.case(dict(repro=kw), nontrivial=nit > 2)
         ck.event("seeded construct+run pairs compared bitwise")
+        if tasks[i][1]["cfg"].get("pool") is not None:
+            ck.event("... of which the likelihood is evaluated through an integer pool / executor")
         for key, what in bad:
             ck.violation(key, what, kw)
     # (b) stream state after library operations
